@@ -5,6 +5,7 @@ package world
 
 import (
 	"context"
+	realos "os"
 	"fmt"
 	"math"
 	"reflect"
@@ -366,6 +367,9 @@ func Safely(f func()) (panicked string) {
 			if ep, ok := r.(vos.ExitPanic); ok {
 				panicked = fmt.Sprintf("exit(%d)", ep.Code)
 				return
+			}
+			if realos.Getenv("VERIF_DEBUG") != "" {
+				fmt.Fprintf(realos.Stderr, "PANIC %v\n%s\n", r, debug.Stack())
 			}
 			panicked = fmt.Sprint(r) + " @ " + TrimStack(string(debug.Stack()))
 		}
